@@ -127,7 +127,7 @@ def run(tier):
         "TERM aligns the base list and scalar list of the combined check: every point field must be a base with a non-zero scalar normal form, every scalar field must "
         "occur in some scalar. SCHED: every field except the two final scalars lies on all accepting paths of the verifier schedule before a later challenge. WIRE: decoding "
         "goes through the validated compressed decoder only.",
-        rule_text="R04.1 non-zero scalar per field; R04.2 absorbed before later challenges; R04.3 validated decode, private fields; R04.4 = C07 rules (batch accepts nothing single verification rejects)",
+        rule_text="R04.1 non-zero scalar per field; R04.2 absorbed on every accepting path, before the challenge weighting its relation and before r (table BINDING); R04.3 validated decode, private fields; R04.4 = C07 rules (batch accepts nothing single verification rejects)",
         not_decided=["exhaustive bit-flip sweep of encodings (needs execution)", "that distinct encodings decode to distinct objects (ark-serialize canonicity, pinned dependency)"],
         assumptions=["ark-serialize deserialize_compressed = Compress::Yes + Validate::Yes (pinned 0.4.2)"],
     )
@@ -140,6 +140,7 @@ CLAIM = {
     "design_ref": "DESIGN.md section 4 C04",
     "technique": "static: per-field coverage of the combined check (symbolic scalars) and of the transcript schedule; decoder who-may-call",
     "text": "Decides the necessary structural condition for non-malleability: every field enumerated from the proof types enters the verification equation with a non-zero "
-    "challenge-dependent scalar and (except a, b) is bound by a later challenge; decoding is the validated one.",
+    "challenge-dependent scalar and (except a, b) is absorbed before the challenge that weights its own relation (A/S before y, T_i before x, "
+    "t_x/t_x_blinding/e_blinding before w) and before the fork the batching weight r is squeezed from; decoding is the validated one.",
     "note": "trusted: soundness of the reference equation (C02/C03) makes a bound, weighted field non-malleable; ark-serialize validation",
 }
